@@ -20,8 +20,13 @@ REAL_STUB_TABLE = {
         "SubsetDependencyMapper, DirectPredecessorsGetter)",
         "verify_distributed_partition", "number_distributed_tags",
         "execute_distributed_partition",
-        "generate_code_for_partition -> generate_loopy (sampled runs; compile "
-        "only, exceptions count)",
+        "generate_code_for_partition -> generate_loopy (sampled runs; "
+        "exceptions count, with a communication-free control compile; the "
+        "program registered for a part must have that part's outputs/inputs)",
+        "shadow execution of the real generated kernel of a part (retargeted "
+        "to loopy's C target, compiled with gcc) next to the stub on a small "
+        "sample of runs: agreement is counted as evidence "
+        "(extra.shadow_real_kernel:*), never decides a verdict",
     ],
     "stub": [
         "mpi4py (the simulator SimMPI: Comm, Request, Op)",
@@ -123,6 +128,8 @@ class Accum:
             self.probes["real_generate_loopy"] += 1
         if res["monitor"]["codegen_own_failures"]:
             self.extra["codegen_failed_also_without_partitioning"] += 1
+        for k, n in res["monitor"]["shadow"].items():
+            self.extra[f"shadow_real_kernel:{k}"] += n
         rd = recipe_digest(recipe)
         pair = hashlib.sha256((rd + res["log_digest"]).encode()).digest()[:8]
         self.pairs.add(pair)
@@ -161,6 +168,7 @@ def run_with(case, decisions=None, rng=None, **kw):
     res = distrun.run_case(case["recipe"], case["cfg"], ch,
                            iterations=case.get("iterations", 1),
                            real_codegen=case.get("real_codegen", False),
+                           shadow_exec=case.get("shadow_exec", False),
                            faults=case.get("faults", ()),
                            transport_fault=case.get("transport_fault"),
                            **kw)
